@@ -524,6 +524,20 @@ def _dp_locals(fi):
 def _mentions_dp_keeping_p(arg, locals_=None):
     if locals_ and isinstance(arg, ast.Name) and arg.id in locals_:
         return arg.id, locals_[arg.id]
+    if locals_ and isinstance(arg, ast.Subscript) and isinstance(arg.value, ast.Name) and arg.value.id in locals_:
+        # indexing a local that still carries the direction axis at position k
+        k = locals_[arg.value.id]
+        sl = arg.slice
+        elts = list(sl.elts) if isinstance(sl, ast.Tuple) else [sl]
+        if any(isinstance(e, ast.Constant) and e.value is Ellipsis for e in elts):
+            return arg.value.id, k       # conservative: position unchanged
+        pos = k
+        for i, e in enumerate(elts):
+            if i < k and not isinstance(e, ast.Slice):
+                pos -= 1                 # an integer index in front removes an axis
+            if i == k and not isinstance(e, ast.Slice):
+                return None              # direction picked
+        return arg.value.id, pos
     if isinstance(arg, ast.Compare):
         for x in [arg.left] + list(arg.comparators):
             r = _mentions_dp_keeping_p(x, locals_)
